@@ -190,11 +190,12 @@ static bool erasech(TickitTermDriver *ttd, int count, TickitMaybeBool moveend)
      */
     char *spaces = tickit_termdrv_get_tmpbuffer(ttd, 64);
     memset(spaces, ' ', 64);
-    while(count > 64) {
+    int remaining = count;
+    while(remaining > 64) {
       tickit_termdrv_write_str(ttd, spaces, 64);
-      count -= 64;
+      remaining -= 64;
     }
-    tickit_termdrv_write_str(ttd, spaces, count);
+    tickit_termdrv_write_str(ttd, spaces, remaining);
 
     if(moveend == TICKIT_NO)
       move_rel(ttd, 0, -count);
